@@ -136,6 +136,8 @@ type Model struct {
 	Snap *snapModel
 	ID   *IDSpec
 	Ever map[string]int // every block hash ever written -> block id
+	Died []string       // block hashes in the order their entry left the log (overwritten / cleared)
+	Step int            // number of ops applied (rotates the sample of old removed blocks that is looked up)
 }
 
 func newModel() *Model { return &Model{Ever: map[string]int{}} }
@@ -176,6 +178,19 @@ func snapData(s *SnapSpec) []byte {
 }
 
 func (m *Model) apply(op Op) {
+	before := m.live()
+	defer func() {
+		after := m.live()
+		gone := []string{}
+		for h := range before {
+			if _, ok := after[h]; !ok {
+				gone = append(gone, h)
+			}
+		}
+		sort.Strings(gone)
+		m.Died = append(m.Died[:len(m.Died):len(m.Died)], gone...)
+		m.Step++
+	}()
 	switch op.Kind {
 	case "save", "write":
 		if len(op.Ents) > 0 {
@@ -422,13 +437,24 @@ func verify(w *raftv2.WalDB, m *Model, genNo uint64, genHash []byte, o *obs) (ds
 		}
 	}
 	// blocks whose entry was overwritten / cleared: "absent, or not that block"
-	dead := make([]string, 0)
-	for hsh := range m.Ever {
-		if _, ok := live[hsh]; !ok {
+	// (all of the most recently removed ones, and a rotating sample of the older ones)
+	dead := make([]string, 0, 40)
+	seenDead := map[string]bool{}
+	pick := func(hsh string) {
+		if _, ok := live[hsh]; !ok && !seenDead[hsh] {
+			seenDead[hsh] = true
 			dead = append(dead, hsh)
 		}
 	}
-	sort.Strings(dead)
+	for i := len(m.Died) - 1; i >= 0 && i >= len(m.Died)-16; i-- {
+		pick(m.Died[i])
+	}
+	if old := len(m.Died) - 16; old > 0 {
+		stride := old/16 + 1
+		for i := m.Step % stride; i < old; i += stride {
+			pick(m.Died[i])
+		}
+	}
 	for _, hsh := range dead {
 		got, err := w.GetRaftEntryOfBlock([]byte(hsh))
 		switch {
